@@ -80,7 +80,6 @@ type Cluster struct {
 
 	doneCh  chan struct{}
 	readyCh chan struct{}
-	readyB  bool
 	wg      sync.WaitGroup
 
 	// peerAdd
@@ -170,7 +169,6 @@ func NewCluster(
 		removed:     false,
 		doneCh:      make(chan struct{}),
 		readyCh:     make(chan struct{}),
-		readyB:      false,
 	}
 
 	// Import known cluster peers from peerstore file and config. Set
@@ -659,11 +657,20 @@ This might be due to one or several causes:
 		}
 	}
 
+	// Do not take shutdownLock here: Shutdown() holds it while waiting
+	// for this goroutine to finish.
 	close(c.readyCh)
-	c.shutdownLock.Lock()
-	c.readyB = true
-	c.shutdownLock.Unlock()
 	logger.Info("** IPFS Cluster is READY **")
+}
+
+// isReady returns whether Ready() has been signaled.
+func (c *Cluster) isReady() bool {
+	select {
+	case <-c.readyCh:
+		return true
+	default:
+		return false
+	}
 }
 
 // Ready returns a channel which signals when this peer is
@@ -704,7 +711,7 @@ func (c *Cluster) Shutdown(ctx context.Context) error {
 
 	// Try to store peerset file for all known peers whatsoever
 	// if we got ready (otherwise, don't overwrite anything)
-	if c.readyB {
+	if c.isReady() {
 		// Ignoring error since it's a best-effort
 		c.peerManager.SavePeerstoreForPeers(c.host.Peerstore().Peers())
 	}
@@ -713,7 +720,7 @@ func (c *Cluster) Shutdown(ctx context.Context) error {
 	// - consensus is initialized
 	// - cluster was ready (no bootstrapping error)
 	// - We are not removed already (means watchPeers() called us)
-	if c.consensus != nil && c.config.LeaveOnShutdown && c.readyB && !c.removed {
+	if c.consensus != nil && c.config.LeaveOnShutdown && c.isReady() && !c.removed {
 		c.removed = true
 		_, err := c.consensus.Peers(ctx)
 		if err == nil {
@@ -735,7 +742,7 @@ func (c *Cluster) Shutdown(ctx context.Context) error {
 
 	// We left the cluster or were removed. Remove any consensus-specific
 	// state.
-	if c.removed && c.readyB {
+	if c.removed && c.isReady() {
 		err := c.consensus.Clean(ctx)
 		if err != nil {
 			logger.Error("cleaning consensus: ", err)
